@@ -65,15 +65,15 @@ class Taper(om.ExplicitComponent):
         # interpolation problem
         if symmetry:
             xp = np.array([-span, 0.0])
-            fp = np.array([taper_ratio, 1.0])
 
         # Otherwise, we set up an interpolation problem for the entire wing, which
         # consists of two linear segments
         else:
             xp = np.array([-span / 2, 0.0, span / 2])
-            fp = np.array([taper_ratio, 1.0, taper_ratio])
 
-        taper = np.interp(x.real, xp.real, fp.real)
+        # The interpolation is linear in the taper ratio: taper = 1 + (taper_ratio - 1) * weight of the tip value.
+        # Written this way it also carries a complex-step perturbation of the taper ratio.
+        taper = 1.0 + (taper_ratio - 1.0) * np.interp(x.real, xp.real, np.array([1.0, 0.0, 1.0])[: len(xp)])
 
         # Modify the mesh based on the taper amount computed per spanwise section
         outputs["mesh"] = np.einsum("ijk,j->ijk", mesh - ref_axis, taper) + ref_axis
@@ -105,10 +105,9 @@ class Taper(om.ExplicitComponent):
 
         taper = np.interp(x, xp, fp)
 
-        if taper_ratio == 1.0:
-            dtaper = np.zeros(taper.shape)
-        else:
-            dtaper = (1.0 - taper) / (1.0 - taper_ratio)
+        # d taper / d taper_ratio is the interpolation weight of the tip value. It does not depend on the taper
+        # ratio, so interpolate it directly; the quotient (1 - taper) / (1 - taper_ratio) is 0/0 at taper_ratio = 1.
+        dtaper = np.interp(x.real, xp.real, np.array([1.0, 0.0, 1.0])[: len(xp)])
 
         partials["mesh", "taper"] = np.einsum("ijk, j->ijk", mesh - ref_axis, dtaper)
 
